@@ -5,20 +5,11 @@ From Coq Require Import ZArith QArith List Bool String Ascii.
 From Coq Require Import PArith.
 From Droop Require Import Model.KernelBase Model.Str Model.Arith Gen.FixedKernels Gen.GuardedKernels
   Model.Prelude Model.State Model.Prims Model.RulesGregory Model.RulesMeek Model.Election.
+From Droop Require Export Model.DriverBase.
+From Droop Require Import Model.DriverParse.
 Import ListNotations.
 Open Scope string_scope.
 Open Scope Z_scope.
-
-Inductive tok := TI (z : Z) | TS (s : string).
-
-Definition exn_name (e : exn) : string :=
-  match e with
-  | ZeroDivisionError => "ZeroDivisionError" | ValueError => "ValueError" | IndexError => "IndexError"
-  | TypeError => "TypeError" | AttributeError => "AttributeError" | AssertionError => "AssertionError"
-  | KeyError => "KeyError" | UnboundLocalError => "UnboundLocalError" | OverflowError => "OverflowError"
-  | NotImplementedErr => "NotImplementedError" | UsageError => "UsageError" | ElectionError => "ElectionError"
-  | ElectionProfileError => "ElectionProfileError"
-  end.
 
 Definition show_resZ (r : res Z) : string :=
   match r with Ok z => "ok " ++ string_of_Z z | Raise e => "exn " ++ exn_name e end.
@@ -278,5 +269,6 @@ Definition run (l : list tok) : string :=
   match l with
   | TS "values" :: rest => run_values (toks_ints rest)
   | TS "count" :: rest => run_count_case rest
+  | TS "parse" :: rest => run_parse rest
   | _ => "badcommand"
   end.
